@@ -302,11 +302,10 @@ class ToCSV(object):
             ## provides rows property.
             # rows is a method (not a property), as it is
             # in dict.keys(), items(), etc.
-            try:
+            # An attribute "rows" that is not callable
+            # (for example a list) does not make a value convertible.
+            if callable(getattr(data, "rows", None)):
                 rows_iter = data.rows()
-            except AttributeError:
-                pass
-            else:
                 # todo: add a header method.
                 try:
                     rows = iterable_to_table(
